@@ -230,6 +230,45 @@ def ukfCall {n m p : Nat} (pinv : Mat α p p → Mat α p p) (msqrt : Mat α n n
   | some Q, some R => some (ukf pinv msqrt kk ⟨sys, u, y, Q, R⟩ pr)
   | _, _ => none
 
+/-! ### a filter object used over a history: stored covariances, per-call sources, default `k`, raising calls -/
+
+/-- `k = 3 - x.size(-1) if k is None else k` -/
+def resolveK (n : Nat) (kk : Option α) : α :=
+  match kk with
+  | some v => v
+  | none => k 3 - k n
+
+/-- what one `filter(x, y, u, P, Q=…, R=…, k=…)` call passes (besides the prior): `none` = argument not given -/
+structure Call (α : Type) (n m p : Nat) where
+  sys : Sys α n m p
+  u : Vec α m
+  y : Vec α p
+  pQ : Option (Mat α n n)
+  pR : Option (Mat α p p)
+  kk : Option α
+
+/-- the `Step` this call amounts to on an object storing `stQ`, `stR` (`none`: `NotImplementedError`, nothing to use) -/
+def Call.toStep {n m p : Nat} (stQ : Option (Mat α n n)) (stR : Option (Mat α p p)) (c : Call α n m p) :
+    Option (Step α n m p) :=
+  match resolve c.pQ stQ, resolve c.pR stR with
+  | some Q, some R => some ⟨c.sys, c.u, c.y, Q, R⟩
+  | _, _ => none
+
+/-- a history on ONE EKF object: every call resolves its own `Q`, `R`; a call that raises leaves the estimate the caller
+holds (and the object) as it was -/
+def runEKFobj {n m p : Nat} (pinv : Mat α p p → Mat α p p) (stQ : Option (Mat α n n)) (stR : Option (Mat α p p))
+    (calls : List (Call α n m p)) (pr : Post α n) : Post α n :=
+  calls.foldl (fun st c => match ekfCall pinv stQ stR c.sys c.u c.y c.pQ c.pR st with
+    | some po => po
+    | none => st) pr
+
+/-- the same for one UKF object; `k` is resolved per call (`None` ↦ `3 − n`) -/
+def runUKFobj {n m p : Nat} (pinv : Mat α p p → Mat α p p) (msqrt : Mat α n n → Mat α n n)
+    (stQ : Option (Mat α n n)) (stR : Option (Mat α p p)) (calls : List (Call α n m p)) (pr : Post α n) : Post α n :=
+  calls.foldl (fun st c => match ukfCall pinv msqrt (resolveK n c.kk) stQ stR c.sys c.u c.y c.pQ c.pR st with
+    | some po => po
+    | none => st) pr
+
 /-! ## PF  (`PF.forward`, `relative_likelihood`, `resample_particles`, `compute_cov`)
 
 The random draws are inputs: `xp i` are the particles returned by `generate_particles(x, n·P)` and
